@@ -27,3 +27,22 @@ def __getattr__(name):           # PEP 562: records every attribute lookup that 
     if name == 'lazyattr':
         return LAZY
     raise AttributeError(name)
+
+
+class LoggingIter:
+    """an existing iterator instance a document can name: advancing it is calling / mutating a selected object"""
+    def __init__(self):
+        self.n = 0
+
+    def __iter__(self):
+        return self
+
+    def __next__(self):
+        LOG.append(('call', 'ITER.__next__'))
+        self.n += 1
+        if self.n % 3 == 0:
+            raise StopIteration
+        return 'item'
+
+
+ITER = LoggingIter()
